@@ -85,7 +85,7 @@ int main(int, char**) {
 	std::string line;
 	// watchdog: a command that runs longer than this many seconds is a hang (SIGALRM kills the process,
 	// the runner reports the command that did not answer)
-	unsigned lineTimeout = 30;
+	unsigned lineTimeout = 90;
 	if (const char* e = std::getenv("VH_LINE_TIMEOUT"))
 		lineTimeout = static_cast<unsigned>(std::atoi(e));
 	while (std::getline(std::cin, line)) {
